@@ -1,3 +1,4 @@
+import PcfgVerif.Generated.ProcessState
 import PcfgVerif.Properties.OmenTrainCore
 import PcfgVerif.Generated.OmenFacts
 import PcfgVerif.Lemmas.OmenFilesD
@@ -143,5 +144,12 @@ example :
       (fun c tot _ => if 2 * c ≥ tot then 0 else 1) 2 3
     t.entries.map (·.key) = [['a'], ['b']] ∧ t.trainerLevel ['a', 'b', 'a'] = some 0 ∧ t.trainerLevel ['b', 'b', 'a'] = some 2 ∧ t.lns = [1, 1, 0, 1] := by
   decide +kernel
+
+/-- **nothing outlives a call except the objects a caller holds** (regenerated from the four library packages): no module-level or
+class-level container that changes, no cache decorator or cache call, no computed default argument and no `global` statement anywhere in
+`lib_guesser`, `lib_trainer`, `lib_scorer`, `lib_princeling` - an answer cannot depend on what another object, an earlier ruleset in the
+same process or the other thread did -/
+theorem C11_no_process_wide_state : Generated.ProcessState.processWideState = [] := by
+  decide
 
 end Pcfg.C11
